@@ -121,7 +121,7 @@ class Corpus:
         while len(self.docs) < n and i < n * 6:
             r = common.rng_for(seed, salt, i)
             i += 1
-            prof = gen.LF_ONLY if i % 3 else gen.DEFAULT
+            prof = gen.SPACED_LF if i % 3 else gen.SPACED     # donors never abut tokens: what that does to edits is a finding about *inputs*
             t = gen.document(r, prof, n=r.randint(2, 7))
             try:
                 f = P.parse(t, models.File)
@@ -165,6 +165,8 @@ class Corpus:
                 v = getattr(x, attr)
             except Exception:
                 continue
+            if isinstance(v, D) and 'E' in str(v):
+                continue      # e.g. 0*100 -> Decimal('0E+2'): no plain-notation raw text, out of the Number domain
             if v is not None and not isinstance(v, (props.RepeatedNodeWrapper, vprops.RepeatedValueWrapper)):
                 return copy.deepcopy(v) if isinstance(v, mbase.RawModel) else v
         return None
@@ -272,7 +274,10 @@ class Generator:
         for _ in range(tries):
             k = r.choices(ks, ws)[0]
             path, m, a, d = r.choice(groups[k])
-            op = self.build(root, path, m, a, d, k)
+            try:
+                op = self.build(root, path, m, a, d, k)
+            except (decimal.DecimalException, ZeroDivisionError):
+                continue       # reading the current value of an expression such as 1/0
             if op is not None:
                 return op
         return None
@@ -334,13 +339,25 @@ class Generator:
             return None
         if invalid and v is cur:
             return None   # assigning the node already there is a documented no-op for replace_node
-        syntax_ok = self._node_is_syntax_ok(m, a, v)
+        syntax_ok = self._node_is_syntax_ok(m, a, v) and not self._custom_ambiguity(path, v)
         if self.syntax_only and not syntax_ok:
             return None
         kindname = f'{k}:{"replace" if cur is not None else "set"}'
         return Op(kindname, f'{path}.{a} = <{type(v).__name__} {common.pr(v)!r:.60}>', m, path, slot,
                   lambda: setattr(m, a, v), syntax_ok=syntax_ok, donors=[v], attr=a,
                   invalid=invalid, expect=ValueError if invalid else None)
+
+    @staticmethod
+    def _custom_ambiguity(path, v):
+        """docs/special/numbers.md: a signed number placed after another number among `custom` values must be parenthesised
+        by the user; such edits are outside the syntax-preserving set."""
+        if '._values.items[' not in path:
+            return False
+        if isinstance(v, mbase.RawModel):
+            return common.pr(v).lstrip()[:1] in ('-', '+')
+        if isinstance(v, D):
+            return v < 0
+        return False
 
     def _clear_is_syntax_ok(self, m, a):
         if isinstance(m, models.CostSpec):
@@ -390,6 +407,8 @@ class Generator:
             donors = []
         if a == 'indent' and isinstance(v, str) and not v:
             return None
+        if self._custom_ambiguity(path, v):
+            syntax_ok = False
         if self.syntax_only and not syntax_ok:
             return None
         return Op(f'{k}:{"clear" if v is None else "set"}', f'{path}.{a} = {v!r:.60}', m, path, slot,
@@ -424,12 +443,12 @@ class Generator:
             return Op('py_property:set', f'{path}.merge = {v}', m, path, _single_slot(m, a, type(m)), lambda: setattr(m, a, v), attr=a)
         if isinstance(m, models.NumberExpr) and a == 'value':
             v = values.rsigned(self.r)
+            ok = not self._custom_ambiguity(path, v)
+            if self.syntax_only and not ok:
+                return None
             return Op('py_property:set', f'{path}.value = {v}', m, path, lambda: [m], lambda: setattr(m, a, v), attr=a,
-                      inplace_ids=[id(m)], syntax_ok=not self._custom_number_ambiguity(m, v))
+                      inplace_ids=[id(m)], syntax_ok=ok)
         return None
-
-    def _custom_number_ambiguity(self, m, v):
-        return v < 0   # conservative: a negative number placed among custom values may need parentheses (docs/special/numbers.md)
 
     # --- raw repeated wrappers ------------------------------------------------------------------------
     def _index(self, n):
@@ -446,8 +465,18 @@ class Generator:
                 return None
             if syntax and isinstance(m, models.Custom) and isinstance(it, (models.NumberExpr, models.Amount)):
                 continue
+            if syntax and not self._fits_indented_list(a, it):
+                continue
             return it
         return None
+
+    @staticmethod
+    def _fits_indented_list(a, it):
+        """An unindented comment can sit at the very end of an entry's indented block (before the dedent) and so be an element of
+        a meta/postings list; moved in front of an indented item it would end the block: not a raw node with a fitting indent."""
+        if a in ('raw_meta_with_comments', 'raw_postings_with_comments') and isinstance(it, models.BlockComment):
+            return bool(it.indent)
+        return True
 
     def raw_list_op(self, path, m, a, k):
         r = self.r
@@ -611,6 +640,8 @@ class Generator:
                 i = r.randrange(n)
                 j = r.randrange(n)
                 desc += f' pop({i})->insert({j}) n={n}'
+                if self.syntax_only and not self._fits_indented_list(raw_attr or a, ref[i]):
+                    return None
 
                 def apply():
                     x = w.pop(i)
@@ -626,6 +657,8 @@ class Generator:
                 desc += f' insert({j}, deepcopy([{i}])) n={n}'
                 c = copy.deepcopy(w[i])
                 vals = [c]
+                if self.syntax_only and not self._fits_indented_list(raw_attr or a, c):
+                    return None
                 if self.syntax_only and isinstance(m, models.Custom) and isinstance(c, (models.NumberExpr, models.Amount)):
                     return None
                 apply = lambda: w.insert(j, c)
@@ -818,3 +851,76 @@ class Generator:
         o = Op(f'meta:{op}', desc, m, path, lambda: list(getattr(m, raw_attr)), apply, attr=a, expect=expect, inplace_ids=inplace)
         o.list_attr = raw_attr
         return o
+
+
+# --- operations that are not property/list edits -----------------------------------------------------------------
+
+class MiscGenerator:
+    """Token assignments, spacing setters and comment claim/unclaim calls (used by C05/C11/C04 histories)."""
+
+    def __init__(self, r):
+        self.r = r
+
+    def next_op(self, root, kinds=('token', 'spacing', 'claim')):
+        r = self.r
+        kind = r.choice(kinds)
+        store = root.token_store
+        if kind == 'token':
+            toks = [t for t in store if hasattr(type(t), 'value')]
+            if not toks:
+                return None
+            t = r.choice(toks)
+            v = values.value_for(r, t, hostile=False)
+            if v is None:
+                return None
+            return Op('token:value', f'<{type(t).__name__} {t.raw_text!r:.30}>.value = {v!r:.40}', root, '$', lambda: [t],
+                      lambda: setattr(t, 'value', v), inplace_ids=[id(t)], syntax_ok=not isinstance(t, models.Indent))
+        if kind == 'spacing':
+            ms = [(p, m) for p, m in walker.walk(root) if m is not root and hasattr(type(m), 'spacing_before') and not isinstance(m, Repeated)]
+            if not ms:
+                return None
+            p, m = r.choice(ms)
+            side = r.choice(['spacing_before', 'spacing_after'])
+            s = r.choice([' ', '  ', '\t', '\n', '\n\n', ''])
+            return Op('spacing:set', f'{p}.{side} = {s!r}', root, '$', lambda: [], lambda: setattr(m, side, s), syntax_ok=False)
+        if kind == 'claim':
+            return self.claim_op(root)
+        return None
+
+    def claim_op(self, root):
+        r = self.r
+        from autobean_refactor.models.internal.surrounding_comments import SurroundingCommentsMixin
+        nodes = list(walker.walk(root))
+        sm = [(p, m) for p, m in nodes if isinstance(m, SurroundingCommentsMixin)]
+        wr = []
+        for p, m in nodes:
+            if isinstance(m, mbase.RawTreeModel) and not isinstance(m, Repeated):
+                for a, d, k in catalog(type(m)):
+                    if k == 'raw_list_comments':
+                        wr.append((p + '.' + a, getattr(m, a)))
+        op = r.choice(['claim_l', 'claim_t', 'unclaim_l', 'unclaim_t', 'claim_i', 'unclaim_i', 'auto', 'claim_some', 'unclaim_some'])
+        if op in ('claim_l', 'claim_t', 'unclaim_l', 'unclaim_t') and sm:
+            p, m = r.choice(sm)
+            fn = {'claim_l': m.claim_leading_comment, 'claim_t': m.claim_trailing_comment,
+                  'unclaim_l': m.unclaim_leading_comment, 'unclaim_t': m.unclaim_trailing_comment}[op]
+            ign = r.random() < 0.5
+            if op.startswith('claim'):
+                return Op('claim:' + op, f'{p}.{fn.__name__}(ignore_if_already_claimed={ign})', root, '$', lambda: [],
+                          lambda: fn(ignore_if_already_claimed=ign), expect=None)
+            return Op('claim:' + op, f'{p}.{fn.__name__}()', root, '$', lambda: [], fn)
+        if op in ('claim_i', 'unclaim_i') and wr:
+            p, w = r.choice(wr)
+            fn = w.claim_interleaving_comments if op == 'claim_i' else w.unclaim_interleaving_comments
+            return Op('claim:' + op, f'{p}.{fn.__name__}()', root, '$', lambda: [], fn)
+        if op in ('claim_some', 'unclaim_some') and wr:
+            p, w = r.choice(wr)
+            cs = [t for t in root.token_store if isinstance(t, models.BlockComment)]
+            if not cs:
+                return None
+            sel = r.sample(cs, r.randint(1, min(2, len(cs))))
+            fn = w.claim_interleaving_comments if op == 'claim_some' else w.unclaim_interleaving_comments
+            return Op('claim:' + op, f'{p}.{fn.__name__}(<{len(sel)} comments>)', root, '$', lambda: [], lambda: fn(sel))
+        if op == 'auto':
+            p, m = r.choice(nodes)
+            return Op('claim:auto', f'{p}.auto_claim_comments()', root, '$', lambda: [], m.auto_claim_comments)
+        return None
